@@ -615,5 +615,46 @@ func c30Facts(repo string, facts map[string]any) {
 		"fields": p.structs()["Runner"],
 		"reset":  c30ResetFacts(p),
 		"sites":  c30Sites(p, fields),
+		"run":    c30RunFacts(p),
 	}
+}
+
+// ---- what Runner.Run itself writes and calls on every call ------------------------------------
+
+type c30Run struct {
+	Found  bool       `json:"found"`
+	Writes []c30Write `json:"writes"` // receiver-field writes anywhere in Run (with guards)
+	Calls  []c30Call  `json:"calls"`  // methods called on the receiver
+}
+
+func c30RunFacts(p *pkgInfo) *c30Run {
+	out := &c30Run{Writes: []c30Write{}, Calls: []c30Call{}}
+	fd := p.funcDecl("Runner", "Run")
+	if fd == nil || fd.Recv == nil || len(fd.Recv.List[0].Names) == 0 {
+		fail("C30: func (r *Runner) Run not found")
+		return out
+	}
+	out.Found = true
+	recv := fd.Recv.List[0].Names[0].Name
+	var panics []string
+	var scan func(stmts []ast.Stmt, guards []string)
+	scan = func(stmts []ast.Stmt, guards []string) {
+		// c30Scan does not descend into switch statements: unfold them here
+		for _, st := range stmts {
+			switch x := st.(type) {
+			case *ast.TypeSwitchStmt:
+				for _, cc := range x.Body.List {
+					scan(cc.(*ast.CaseClause).Body, append(append([]string{}, guards...), "switch"))
+				}
+			case *ast.SwitchStmt:
+				for _, cc := range x.Body.List {
+					scan(cc.(*ast.CaseClause).Body, append(append([]string{}, guards...), "switch"))
+				}
+			default:
+				c30Scan([]ast.Stmt{st}, recv, guards, &out.Writes, &out.Calls, &panics)
+			}
+		}
+	}
+	scan(fd.Body.List, nil)
+	return out
 }
